@@ -55,7 +55,7 @@ def gen_case(rng, max_m=1000, small=False, weaver=False, large=False, huge=False
     points (len(x) * len(x_ref) well above 2**20), the sizes the library is used at"""
     many = 0
     if huge:            # a day of per-second samples matched against a handful of reference points
-        m = int(rng.integers(66000, 90001))
+        m = gen.huge_size(rng)
     elif large:
         many = int(rng.integers(70, 261))
         m = int(rng.integers(max(5000, int(1.1 * 2 ** 20 / many)), 18001))
@@ -70,6 +70,11 @@ def gen_case(rng, max_m=1000, small=False, weaver=False, large=False, huge=False
             x, xc = mixed
     y, yc = gen.gen_y(rng, m)
     idx = _pick_fixed(rng, m, hug_ends=True if weaver else None, many=many)
+    if huge and rng.integers(0, 2):
+        # a day of per-second samples matched against the daily (or half-day) mean: two or three fixed points, so that ONE
+        # interval holds (nearly) all samples - more than 2**15 or 2**16 of them
+        a_, b_ = int(rng.integers(0, 4)), m - 1 - int(rng.integers(0, 4))
+        idx = [a_, b_] if rng.integers(0, 2) else [a_, a_ + int(rng.integers(50, 400)), b_]
     force_top = None
     if m > 130 and not large and not weaver and rng.integers(0, 10) == 0:
         # the last fixed point exactly at a narrow index type's maximum (int8: 127, uint8: 255)
